@@ -4,7 +4,7 @@
 // while leaders or coordinators move or the first attempts are answered with retriable errors.
 //
 // op:   shard <seed> <kind> <brokers> <fault none|err|move|shuffle|rehash>
-// impl: G:<dest=items;...|*>  canonical grouping of the returned shards' request items by destination (static layouts only)
+// impl: G:<dest=items;...|*>  canonical grouping of the returned shards' request items by destination (`*` for the per-replica kinds)
 //
 //	K:<kind> B:<brokers> F:<fault> D:<0|1 the sharder dedups requested items>
 //	R:<items>                 requested items in request order (t/p topic-partitions, group / txn-id / key names, b<i> brokers for fan-outs)
@@ -14,6 +14,7 @@
 //	S:<dest>:<request items>:<response item=code,...|->:<err|->   one returned shard of RequestSharded
 //	P                         the RequestSharded phase is over; the Request phase (fresh client) follows
 //	M:<err|->:<item=code,...>  merged response of Request and its error
+//	N:<frames>                request frames of that API key seen by sim.Net.OnRequest during both phases (= number of W events)
 //	Q
 package main
 
@@ -492,6 +493,22 @@ var shKindNames = []string{"listoffsets", "deleterecords", "offsetforleaderepoch
 func genShard(a hx.Args) {
 	r := hx.NewRng(a.Seed ^ 0xC23)
 	n := a.N(400, 4000)
+	if a.Tier == "thorough" {
+		// small scope, exhaustively: every kind x cluster size x fault kind, three item sets each
+		for _, k := range shKindNames {
+			for b := 1; b <= 5; b++ {
+				for _, f := range []string{"none", "err", "move", "shuffle", "rehash"} {
+					fam := shKinds[k].fam
+					if f != "none" && (fam == "cfg" || fam == "rep") || (f == "move" || f == "shuffle") && fam != "tp" || f == "rehash" && fam != "grp" && fam != "txn" {
+						continue
+					}
+					for j := 0; j < 3; j++ {
+						hx.Emit("shard %d %s %d %s", r.U64()%100000000, k, b, f)
+					}
+				}
+			}
+		}
+	}
 	for i := 0; i < n; i++ {
 		k := shKindNames[i%len(shKindNames)]
 		kd := shKinds[k]
@@ -749,6 +766,17 @@ func runShard(t *testing.T, tk []string) string {
 	}
 	frng := hx.NewRng(seed ^ 0xfa17)
 	userPhase := false
+	frames := 0 // request frames of the kind's API key seen by the network layer (sim.Net.OnRequest) during the two phases
+	net.OnRequest = func(_ int, key int16, _ []byte, _ sim.Action) {
+		if key != kd.key {
+			return
+		}
+		vmu.Lock()
+		if userPhase {
+			frames++
+		}
+		vmu.Unlock()
+	}
 	cluster.ControlKey(kd.key, func(kreq kmsg.Request) (kmsg.Response, error, bool) {
 		cluster.KeepControl()
 		vmu.Lock()
@@ -887,6 +915,20 @@ func runShard(t *testing.T, tk []string) string {
 		sev = append(sev, fmt.Sprintf("S:%s:%s:%s:%s", dest, joinOr(sorted), resp, errName(s.Err)))
 		group[dest] = append(group[dest], its...)
 	}
+	if fault == "move" || fault == "shuffle" || fault == "rehash" {
+		// observation, not part of the property: a shard answered NOT_LEADER / NOT_COORDINATOR that the client returned without retrying
+		stale := false
+		for _, s := range shards {
+			if s.Resp != nil {
+				for _, x := range kd.respIt(s.Resp) {
+					stale = stale || strings.HasSuffix(x, "=6") || strings.HasSuffix(x, "=16")
+				}
+			}
+		}
+		if stale {
+			hx.St.Inc("scen.shard.observed.stale-leader-answer-returned-unretried." + kd.fam)
+		}
+	}
 	sort.Strings(sev)
 	for _, e := range sev {
 		log.Add("%s", e)
@@ -909,13 +951,17 @@ func runShard(t *testing.T, tk []string) string {
 		mit = joinOr(xs)
 	}
 	log.Add("M:%s:%s", errName(merr), mit)
+	vmu.Lock()
+	log.Add("N:%d", frames)
+	vmu.Unlock()
 	cl2.Close()
 	cancel()
 	synctest.Wait()
 	log.Add("Q")
 
 	g := "G:*"
-	if static && kd.fam != "rep" {
+	_ = static
+	if kd.fam != "rep" {
 		var ds []string
 		for d, its := range group {
 			sort.Strings(its)
